@@ -70,6 +70,14 @@ func opClasses() []opClass {
 		return func(r *gen.RNG) ref.Bits {
 			switch kind {
 			case "frac": // 0 < |v| < 1, never an integer
+				if r.Chance(1, 8) {
+					// coefficient next to an internal threshold (2^113, word boundaries, ...), exact or cohort-scaled
+					c := r.ThresholdCoef()
+					if r.Bool() {
+						c = r.ThresholdExact()
+					}
+					return ref.Encode(neg, c, gen.ClampExp(-ref.NumDigits(c)-r.Pick(0, 0, 1, 2, 3, 4, 5, 6, 7, 8, 40, 3000)))
+				}
 				if r.Chance(1, 4) {
 					// full-width members: 34 digits in [0.1,1), 35 digits below 0.1298, and the neighbours of one from below
 					switch r.Intn(3) {
@@ -124,6 +132,17 @@ func opClasses() []opClass {
 				}
 				return cohortOf(r, neg, c, -k)
 			case "odd": // odd integer > 1
+				if r.Chance(1, 8) {
+					c := r.ThresholdCoef()
+					if r.Bool() {
+						c = r.ThresholdExact()
+					}
+					c.SetBit(c, 0, 1)
+					if c.Cmp(big.NewInt(3)) < 0 {
+						c = big.NewInt(3)
+					}
+					return ref.Encode(neg, c, 0)
+				}
 				c := r.Digits(r.Pick(1, 1, 2, 5, 18, 30, 34))
 				if r.Chance(1, 12) {
 					c = wide35(r)
@@ -136,6 +155,21 @@ func opClasses() []opClass {
 				}
 				return cohortOf(r, neg, c, 0)
 			default: // even integer > 1
+				if r.Chance(1, 6) {
+					// threshold coefficient: at a positive exponent (any coefficient is then even), or made even at exponent 0
+					c := r.ThresholdCoef()
+					if r.Bool() {
+						c = r.ThresholdExact()
+					}
+					if c.Cmp(big.NewInt(4)) < 0 {
+						c = big.NewInt(4)
+					}
+					if e := r.Pick(0, 0, 1, 2, 3, 4, 5, 8, 12, 16, 300); e > 0 {
+						return ref.Encode(neg, c, e)
+					}
+					c.SetBit(c, 0, 0)
+					return ref.Encode(neg, c, 0)
+				}
 				if r.Chance(1, 3) {
 					c := r.Digits(r.Range(1, 20))
 					return ref.Encode(neg, c, r.Pick(1, 2, 5, 30, 300)) // positive exponent: even
@@ -592,7 +626,7 @@ func runC15(c *Ctx) {
 	classes := opClasses()
 	c.Parallel("classes", ref.NearestEven, func(sh *mon.Shard, r *gen.RNG) {
 		j := &specJudge{ctx: c, sh: sh}
-		reps := c.N(30, 120)
+		reps := c.N(200, 300)
 		idx := 0
 		for rep := 0; rep < reps; rep++ {
 			for a := range classes {
